@@ -5,11 +5,11 @@ EXTENDS Integers, FiniteSets, Sequences
 RowsOf(M) == 1..Len(M)
 ColsOf(M) == IF Len(M) = 0 THEN {} ELSE 1..Len(M[1])
 ColSet(M, r) == {c \in ColsOf(M) : M[r][c] = 1}
-Prim(M, prim) == {c \in ColsOf(M) : prim[c]}
+Prim(M, prim) == {c \in 1..Len(prim) : prim[c]}        \* columns are those prim speaks about (a matrix without rows still has columns)
 Useful(M, prim) == {r \in RowsOf(M) : ColSet(M, r) \cap Prim(M, prim) # {}}
 Hits(M, S, c) == Cardinality({r \in S : M[r][c] = 1})
 IsCover(M, prim, S) == /\ S \subseteq Useful(M, prim)
-                       /\ \A c \in ColsOf(M) : IF prim[c] THEN Hits(M, S, c) = 1 ELSE Hits(M, S, c) <= 1
+                       /\ \A c \in 1..Len(prim) : IF prim[c] THEN Hits(M, S, c) = 1 ELSE Hits(M, S, c) <= 1
 Covers(M, prim) == {S \in SUBSET Useful(M, prim) : IsCover(M, prim, S)}
 \* twin: a cover is a set of pairwise disjoint useful rows whose union contains every primary column
 Disjoint(M, S) == \A r1, r2 \in S : r1 # r2 => ColSet(M, r1) \cap ColSet(M, r2) = {}
